@@ -125,6 +125,10 @@ def judge_pair(ctx, cfg, n, reps):
 
 
 def run(ctx):
+    # the limiter table under access and outcome-report sequences against the real BucketManager (a host that answers after its bucket was
+    # evicted must not leave the table above its bound)
+    from . import c13
+    c13.table(ctx, 600 if ctx.thorough() else 60)
     stage_bodies(ctx, 600 if ctx.thorough() else 40)
     import concurrent.futures, random
     npairs = 24 if ctx.thorough() else 3
@@ -140,6 +144,9 @@ def run(ctx):
 
 
 def replay(ctx, doc):
+    if doc.get("replay", doc).get("domain") == "rl-table":
+        from . import c13
+        return c13.replay_table(ctx, doc.get("replay", doc))
     rp = doc.get("replay", doc)
     if rp.get("domain") == "stage":
         stage_bodies(ctx, 5)
